@@ -590,6 +590,17 @@ impl<'a> TGen<'a> {
                 }
             }
             RType::Long => {
+                // arithmetic on the subject (can overflow on the edgy values World-S favours)
+                let e = match t.upto(8) {
+                    0 => {
+                        let (g0, o0) = self.term(t, &RType::Long, 0);
+                        let op = *t.pick(&[BinOp::Add, BinOp::Sub, BinOp::Mul]);
+                        let a = E::Bin(op, b(e), b(o0));
+                        if g0.is_empty() { a } else { E::If(b(conj(g0, E::bool(true))), b(a), b(E::long(0))) }
+                    }
+                    1 => E::Neg(b(e)),
+                    _ => e,
+                };
                 let (g, o) = self.term(t, &RType::Long, depth.saturating_sub(1));
                 let op = *t.pick(&[BinOp::Lt, BinOp::Le, BinOp::Gt, BinOp::Ge, BinOp::Eq, BinOp::Neq]);
                 let cmp = E::Bin(op, b(e), b(o));
@@ -661,6 +672,23 @@ impl<'a> TGen<'a> {
                 _ => E::Call("isInRange".into(), vec![e, E::Call("ip".into(), vec![E::str(*t.pick(&["10.0.0.0/8", "::/0", "0.0.0.0/0"]))])]),
             },
             RType::Ext("datetime") => {
+                let e = match t.upto(8) {
+                    0 => E::Call("offset".into(), vec![e, E::Call("duration".into(), vec![E::str(*t.pick(&["1d", "-1ms", "9223372036854775807ms", "-106751991167d"]))])]),
+                    1 => {
+                        let c = E::Call("durationSince".into(), vec![e, E::Call("datetime".into(), vec![E::str(*t.pick(&["2024-01-01", "1970-01-01", "9999-12-31T23:59:59.999Z"]))])]);
+                        return E::Bin(*t.pick(&[BinOp::Lt, BinOp::Ge, BinOp::Eq]), b(c), b(E::Call("duration".into(), vec![E::str(*t.pick(&["1d", "0ms", "-1h30m"]))])));
+                    }
+                    2 => {
+                        let f = *t.pick(&["toDate", "toTime"]);
+                        let c = E::Call(f.into(), vec![e]);
+                        return if f == "toDate" {
+                            E::Bin(*t.pick(&[BinOp::Lt, BinOp::Ge, BinOp::Eq]), b(c), b(E::Call("datetime".into(), vec![E::str(*t.pick(&["2024-01-01", "1970-01-01"]))])))
+                        } else {
+                            E::Bin(*t.pick(&[BinOp::Lt, BinOp::Ge, BinOp::Eq]), b(c), b(E::Call("duration".into(), vec![E::str(*t.pick(&["12h", "0ms", "23h59m59s999ms"]))])))
+                        };
+                    }
+                    _ => e,
+                };
                 let op = *t.pick(&[BinOp::Lt, BinOp::Le, BinOp::Gt, BinOp::Ge, BinOp::Eq]);
                 E::Bin(op, b(e), b(E::Call("datetime".into(), vec![E::str(*t.pick(&["2024-01-01", "1970-01-01"]))])))
             }
